@@ -9,6 +9,8 @@ import (
 	"os"
 	"os/exec"
 	"path/filepath"
+	"strconv"
+	"strings"
 	"syscall"
 	"time"
 
@@ -81,23 +83,60 @@ func runGo(dir string, env []string, args ...string) error {
 	return nil
 }
 
-// procState returns the state letter of /proc/<pid>/stat ("" when the process is gone).
+// procState returns the state letter of /proc/<pid>/stat of a child of this process ("" when
+// the process is gone, or when the pid now belongs to somebody else's process: the plugins are
+// launched by the Adaptation running inside this process, so they are its children).
 func procState(pid int) string {
 	b, err := os.ReadFile(fmt.Sprintf("/proc/%d/stat", pid))
 	if err != nil {
 		return ""
 	}
-	// pid (comm) S ...   — comm may contain spaces and parentheses: use the last ')'
+	// pid (comm) S ppid ...   — comm may contain spaces and parentheses: use the last ')'
 	s := string(b)
 	for i := len(s) - 1; i >= 0; i-- {
 		if s[i] == ')' {
-			if i+2 < len(s) {
-				return string(s[i+2])
+			f := strings.Fields(s[i+1:])
+			if len(f) >= 2 {
+				if ppid, err := strconv.Atoi(f[1]); err == nil && ppid != os.Getpid() {
+					return "" // a recycled pid
+				}
+				return f[0][:1]
 			}
 			break
 		}
 	}
 	return "?"
+}
+
+// ownSockets returns the inode links ("socket:[n]") of the sockets open in this process that are not in
+// the set given (nil = all of them).
+func ownSockets(except map[string]bool) map[string]bool {
+	out := map[string]bool{}
+	ents, err := os.ReadDir("/proc/self/fd")
+	if err != nil {
+		return out
+	}
+	for _, e := range ents {
+		l, err := os.Readlink("/proc/self/fd/" + e.Name())
+		if err == nil && strings.HasPrefix(l, "socket:") && !except[l] {
+			out[l] = true
+		}
+	}
+	return out
+}
+
+// waitFile polls until the file exists, at most for d.
+func waitFile(path string, d time.Duration) bool {
+	deadline := time.Now().Add(d)
+	for {
+		if _, err := os.Stat(path); err == nil {
+			return true
+		}
+		if time.Now().After(deadline) {
+			return false
+		}
+		time.Sleep(2 * time.Millisecond)
+	}
 }
 
 // notRunning: gone or a zombie (dead, not yet waited for).
